@@ -34,6 +34,7 @@ type Op struct {
 	N   int    `json:"n,omitempty"`   // numeric argument (workers, type id, …)
 	W   int    `json:"w,omitempty"`   // number of Some wrappers around a container value
 	D   bool   `json:"d,omitempty"`   // keep (do not dispose of) a container handed back
+	Alt bool   `json:"alt,omitempty"` // operate through the container's second handle
 }
 
 func (o Op) String() string {
@@ -62,6 +63,9 @@ func (o Op) String() string {
 	}
 	if o.D {
 		sb.WriteString(",keep")
+	}
+	if o.Alt {
+		sb.WriteString(",alt")
 	}
 	sb.WriteString(")")
 	return sb.String()
@@ -107,6 +111,10 @@ type World struct {
 	EverCompact bool
 
 	traceMode bool
+
+	// prov: for every live handle object, the operation that produced it and whether its container
+	// was stored inline at that moment (facts a parent callback may capture when it is installed).
+	prov map[any]string
 
 	// TrackStale keeps pre-detachment handles for stale-handle mutations (C11); FormerOnly, when set by a
 	// stale mutation of a container that has since been re-attached elsewhere through another handle,
@@ -169,9 +177,22 @@ func (w *World) LiveRoots() []*Cont {
 
 // NewCont creates a standalone container at addr.
 func (w *World) NewCont(isMap bool, addr atree.Address, typeID uint64, comp bool) (*Cont, error) {
+	return w.newCont(isMap, addr, typeID, comp, true)
+}
+
+// builderFor returns the digester builder a map handle must be opened with.
+func (w *World) builderFor(c *Cont) atree.DigesterBuilder {
+	if c != nil && c.Table && w.Digests != nil {
+		return w.Digests.Builder()
+	}
+	return atree.NewDefaultDigesterBuilder()
+}
+
+func (w *World) newCont(isMap bool, addr atree.Address, typeID uint64, comp bool, asRoot bool) (*Cont, error) {
 	c := &Cont{Serial: len(w.Conts), IsMap: isMap, TypeID: typeID, Comp: comp}
+	c.Table = isMap && asRoot && w.Digests != nil
 	if isMap {
-		m, err := atree.NewMap(w.St, addr, w.digesterBuilder(), w.typeInfo(typeID, comp))
+		m, err := atree.NewMap(w.St, addr, w.builderFor(c), w.typeInfo(typeID, comp))
 		if err != nil {
 			return nil, violf("NewMap failed: %v", err)
 		}
@@ -229,7 +250,7 @@ func (w *World) EnsureHandle(c *Cont) error {
 	}
 	if c.Parent == nil {
 		if c.IsMap {
-			m, err := atree.NewMapWithRootID(w.St, c.SID, w.digesterBuilder())
+			m, err := atree.NewMapWithRootID(w.St, c.SID, w.builderFor(c))
 			if err != nil {
 				return violf("reopen map c%d by root id %s failed: %v", c.Serial, c.SID, err)
 			}
@@ -550,6 +571,7 @@ func (w *World) handBack(s atree.Storable, old MV, keep bool, what string) error
 	}
 	u, _ := Unwrap(old)
 	if c, ok := u.(*Cont); ok {
+		c.AltArr, c.AltMap = nil, nil
 		oldParent := c.Parent
 		c.Parent = nil
 		c.Wrap = 0
@@ -686,7 +708,7 @@ func (w *World) newValue(o Op, into *Cont) (MV, atree.Value, error) {
 		if into != nil {
 			addr = into.SID.Address()
 		}
-		ch, err := w.NewCont(isMap, addr, contClassType(cl), comp)
+		ch, err := w.newCont(isMap, addr, contClassType(cl), comp, false)
 		if err != nil {
 			return nil, nil, err
 		}
@@ -780,11 +802,27 @@ func (w *World) Apply(o Op) (err error) {
 	w.LastRet = ""
 	w.History = append(w.History, o)
 	err = w.apply(o)
+	w.noteProvenance(o)
 	w.Rets = append(w.Rets, w.LastRet)
 	return err
 }
 
 func (w *World) apply(o Op) error {
+	if o.Alt {
+		// run the operation through the second handle: swap it in for the duration of the call
+		c := w.Conts[o.C]
+		if c.Dead || (c.AltArr == nil && c.AltMap == nil) {
+			return fmt.Errorf("harness: c%d has no second handle", o.C)
+		}
+		c.Arr, c.AltArr = c.AltArr, c.Arr
+		c.Map, c.AltMap = c.AltMap, c.Map
+		o2 := o
+		o2.Alt = false
+		err := w.apply(o2)
+		c.Arr, c.AltArr = c.AltArr, c.Arr
+		c.Map, c.AltMap = c.AltMap, c.Map
+		return err
+	}
 	switch o.K {
 	case "newarr", "newmap":
 		addr := w.Addr
@@ -1030,7 +1068,7 @@ func (w *World) apply(o Op) error {
 			}
 		}
 		old, err := c.Map.Set(tu.CompareValue, tu.GetHashInput, ToAtree(key), rv)
-		if w.Digests != nil && pos < 0 && w.Digests.expectCollisionLimit(c, key) {
+		if w.Digests != nil && c.Table && pos < 0 && w.Digests.expectCollisionLimit(c, key) {
 			w.LastRet = "err:collisionlimit"
 			return checkErr(err, errCollisionLimit, o.String())
 		}
@@ -1152,6 +1190,24 @@ func (w *World) apply(o Op) error {
 			return err
 		}
 		return w.iterMut(c, o)
+
+	case "get2":
+		// obtain a second handle to an attached child by lookup through its parent
+		c := w.Conts[o.C]
+		if c.Dead || c.Parent == nil {
+			return fmt.Errorf("harness: get2 of c%d which is not attached", o.C)
+		}
+		if err := w.EnsureHandle(c); err != nil {
+			return err
+		}
+		keepArr, keepMap := c.Arr, c.Map
+		c.Arr, c.Map = nil, nil
+		if err := w.Reget(c); err != nil {
+			return err
+		}
+		c.AltArr, c.AltMap = c.Arr, c.Map
+		c.Arr, c.Map = keepArr, keepMap
+		return nil
 
 	case "stalemut":
 		c := w.Conts[o.C]
@@ -1280,6 +1336,7 @@ func (w *World) dropChildHandles() {
 	for _, c := range w.Conts {
 		if c.Parent != nil {
 			c.Arr, c.Map = nil, nil
+			c.AltArr, c.AltMap = nil, nil
 		}
 	}
 }
@@ -1289,6 +1346,7 @@ func (w *World) Reopen() {
 	w.St = NewStorage(w.Ledger)
 	for _, c := range w.Conts {
 		c.Arr, c.Map = nil, nil
+		c.AltArr, c.AltMap = nil, nil
 	}
 }
 
@@ -1313,8 +1371,8 @@ func (w *World) DeepCheck() error {
 
 // level0Digest computes the first-level digest of key under a map seed, the way the map's
 // digester would (controlled table, or the default CircleHash64 digester).
-func (w *World) level0Digest(key MV, seed uint64) (uint64, bool) {
-	if w.Digests != nil {
+func (w *World) level0Digest(key MV, seed uint64, table bool) (uint64, bool) {
+	if w.Digests != nil && table {
 		return w.Digests.digestsOf(keyNumber(key))[0], true
 	}
 	var scratch [64]byte
@@ -1518,4 +1576,39 @@ func trimS(cl string) string {
 			return cl
 		}
 	}
+}
+
+func (w *World) noteProvenance(o Op) {
+	if w.prov == nil {
+		w.prov = map[any]string{}
+	}
+	note := func(h any, inl bool) {
+		if _, ok := w.prov[h]; !ok {
+			w.prov[h] = fmt.Sprintf("inl=%v", inl)
+		}
+	}
+	for _, c := range w.Conts {
+		if c.Dead {
+			continue
+		}
+		if c.Arr != nil {
+			note(c.Arr, c.Arr.Inlined())
+		}
+		if c.Map != nil {
+			note(c.Map, c.Map.Inlined())
+		}
+		if c.AltArr != nil {
+			note(c.AltArr, c.AltArr.Inlined())
+		}
+		if c.AltMap != nil {
+			note(c.AltMap, c.AltMap.Inlined())
+		}
+	}
+}
+
+func (w *World) provOf(h any) string {
+	if p, ok := w.prov[h]; ok {
+		return p
+	}
+	return "?"
 }
